@@ -448,14 +448,16 @@ func (m *Machine) doDispose(force bool) {
 	if !force {
 		m.activeStatesMx.Lock()
 		defer m.activeStatesMx.Unlock()
+		// the queue lock goes before the subscriptions lock, like everywhere
+		// else (eg the end of processQueue), otherwise these can deadlock
+		m.queueMx.Lock()
+		defer m.queueMx.Unlock()
 		m.subs.Mx.Lock()
 		defer m.subs.Mx.Unlock()
 		m.tracersMx.Lock()
 		defer m.tracersMx.Unlock()
 		m.handlersMx.Lock()
 		defer m.handlersMx.Unlock()
-		m.queueMx.Lock()
-		defer m.queueMx.Unlock()
 	}
 
 	m.log(LogEverything, "[end] doDispose")
